@@ -494,6 +494,8 @@ impl AddressLookupServices {
                 service.publish(data)
             }
         }
+        #[cfg(feature = "verif-hooks")]
+        iroh_base::verif_hooks::point("addr_lookup:add:before_push");
         self.services.write().expect("poisoned").push(service);
     }
 
@@ -524,6 +526,8 @@ impl AddressLookupServices {
             service.publish(&data);
         }
 
+        #[cfg(feature = "verif-hooks")]
+        iroh_base::verif_hooks::point("addr_lookup:publish:before_store");
         self.last_data
             .write()
             .expect("poisoned")
